@@ -406,3 +406,73 @@ func TestVerifTimingWheelSlowCallbacks(t *testing.T) {
 		})
 	}
 }
+
+// A callback that panics is that task's firing (it was handed to the execute function once):
+// it must not keep any other task from firing - neither the tasks due in the same tick
+// (whatever their order in the slot) nor those of later ticks.  Every subset of three tasks
+// due in one tick panics; every key is handed to the execute function exactly once.
+func TestVerifTimingWheelPanickingCallbacks(t *testing.T) {
+	defer vrt.WriteReport()
+	if !vrt.Shard(4) {
+		return
+	}
+	for _, slots := range []int{2, 5} {
+		for mask := 1; mask < 8; mask++ {
+			slots, mask := slots, mask
+			vrt.Explore(vrt.Options{Name: fmt.Sprintf("timingwheel/panicking-callbacks/slots=%d/panicking=%03b", slots, mask), Bound: 1, Prune: true, Budget: vrt.FairBudget(1)}, func(r *vrt.Run) {
+				tk := timex.NewFakeTicker()
+				var mu sync.Mutex
+				fired := map[string][]string{}
+				bad := map[string]bool{}
+				for i, k := range []string{"a1", "a2", "a3"} {
+					if mask&(1<<i) != 0 {
+						bad[k] = true
+					}
+				}
+				w, err := newTimingWheelWithClock(twInterval, slots, func(k, v any) {
+					mu.Lock()
+					fired[fmt.Sprint(k)] = append(fired[fmt.Sprint(k)], fmt.Sprint(v))
+					mu.Unlock()
+					if bad[fmt.Sprint(k)] {
+						panic("callback of " + fmt.Sprint(k) + " failed")
+					}
+				}, tk)
+				if err != nil {
+					r.Failf("constructor: %v", err)
+					return
+				}
+				w.SetTimer("a1", "va1", twInterval)
+				w.SetTimer("a2", "va2", twInterval)
+				w.SetTimer("a3", "va3", twInterval)
+				w.SetTimer("b1", "vb1", 2*twInterval)
+				w.SetTimer("far", "vfar", time.Duration(slots+1)*twInterval)
+				vrt.Settle()
+				tk.Tick()
+				vrt.Settle()
+				tk.Tick()
+				vrt.Settle()
+				mu.Lock()
+				r.Outcome("%v", len(fired))
+				for _, k := range []string{"a1", "a2", "a3", "b1"} {
+					if len(fired[k]) != 1 || fired[k][0] != "v"+k {
+						r.Failf("callbacks of %v panic: timer %s was handed to the execute function %d time(s) (%v), want exactly once with v%s (all: %v)", bad, k, len(fired[k]), fired[k], k, fired)
+					}
+				}
+				if len(fired["far"]) != 0 {
+					r.Failf("timer far fired after 2 ticks, due at tick %d", slots+1)
+				}
+				mu.Unlock()
+				for i := 2; i < slots+1; i++ {
+					tk.Tick()
+					vrt.Settle()
+				}
+				mu.Lock()
+				if len(fired["far"]) != 1 {
+					r.Failf("callbacks of %v panicked earlier: timer far fired %d time(s) by tick %d, want once", bad, len(fired["far"]), slots+1)
+				}
+				mu.Unlock()
+				w.Stop()
+			})
+		}
+	}
+}
